@@ -1909,3 +1909,24 @@ TABLE["C10"] += [
     B("instantiated-classes-equal-by-cpp-type", {"T21"},
       ("gtwrap/template_instantiator/classes.py", "    def instantiate_parent_class(self, typenames):", "    def __eq__(self, other):\n        return isinstance(other, InstantiatedClass) and self.to_cpp() == other.to_cpp()\n\n    def __hash__(self):\n        return hash(self.to_cpp())\n\n    def instantiate_parent_class(self, typenames):")),
 ]
+_CR_A = "            if self.is_class_enum(ctype, instantiated_class):\n                class_name = \".\".join(instantiated_class.namespaces()[1:] +\n                                      [instantiated_class.name])\n            else:"
+TABLE["C06"] += [
+    B("constructor-without-supplied-arguments-skips-the-argument-pass", {"M18"},
+      (MW, "                base = ''\n                params, body_args = self._wrapper_unwrap_arguments(\n                    extra.args, instantiated_class=collector_func[1])\n",
+       "                base = ''\n                params, body_args = '', ''\n                if extra.args:\n                    params, body_args = self._wrapper_unwrap_arguments(\n                        extra.args, instantiated_class=collector_func[1])\n")),
+    N("constructor-without-parameters-skips-the-argument-pass",
+      (MW, "                base = ''\n                params, body_args = self._wrapper_unwrap_arguments(\n                    extra.args, instantiated_class=collector_func[1])\n",
+       "                base = ''\n                params, body_args = '', ''\n                if extra.args.backup.list():\n                    params, body_args = self._wrapper_unwrap_arguments(\n                        extra.args, instantiated_class=collector_func[1])\n")),
+    B("returned-enum-asks-the-namespace-first", {"M20"},
+      (MW, _CR_A, "            if not self.is_global_enum(ctype, instantiated_class):\n                class_name = \".\".join(instantiated_class.namespaces()[1:] +\n                                      [instantiated_class.name])\n            else:")),
+    B("class-enum-decided-by-bare-name-again", {"M20"},
+      (MX, "            qualifier = arg_type.typename.namespaces\n            if not qualifier or not class_.parent:\n                return True\n", "            return True\n            qualifier = arg_type.typename.namespaces\n")),
+    B("returned-class-enum-loses-the-class", {"M20"},
+      (MW, "                class_name = \".\".join(instantiated_class.namespaces()[1:] +\n                                      [instantiated_class.name])\n            else:\n                # Get the full namespace", "                class_name = \".\".join(instantiated_class.namespaces()[1:])\n            else:\n                # Get the full namespace")),
+]
+TABLE["C06"] += [
+    B("static-methods-always-assign-one-output", {"M21"},
+      (MW, "                      {check_statement}{spacing}{varargout}{wrapper}({id}, varargin{{:}});{end_statement}", "                      {check_statement}{spacing}varargout{{1}} = {wrapper}({id}, varargin{{:}});{end_statement}")),
+    B("void-free-functions-assign-an-output", {"M21"},
+      (MW, "            varargout = '' \\\n                if return_type_formatted == 'void' \\\n                else 'varargout{1} = '", "            varargout = 'varargout{1} = '")),
+]
